@@ -713,12 +713,14 @@ struct ManyShapes {
     ns: Vec<usize>,
 }
 impl ManyShapes {
-    fn shape(k: usize) -> Arc<Vec<Column>> {
+    /// `one_table`: every list belongs to the same table (state remembered per table then meets a
+    /// column of "the same table" at every step); otherwise the table changes with every list
+    fn shape_of(k: usize, one_table: bool) -> Arc<Vec<Column>> {
         let ncols = 1 + k % 4;
         Arc::new(
             (0..ncols)
                 .map(|c| Column {
-                    table: format!("t{}", k % 7),
+                    table: if one_table { "t0".to_string() } else { format!("t{}", k % 7) },
                     column: format!("s{}_c{}", k, c),
                     coltype: [ColumnType::MYSQL_TYPE_LONG, ColumnType::MYSQL_TYPE_VAR_STRING, ColumnType::MYSQL_TYPE_DOUBLE][(k + c) % 3],
                     colflags: if (k + c) % 5 == 0 { ColumnFlags::UNSIGNED_FLAG } else { ColumnFlags::empty() },
@@ -747,7 +749,7 @@ impl Family for ManyShapes {
         order.extend((0..n).map(|i| (i * stride + 1) % n));
         let long_cols = Arc::new(vec![Column { table: "t0".into(), column: "L".repeat(5000), coltype: ColumnType::MYSQL_TYPE_LONG, colflags: ColumnFlags::empty() }]);
         let mut cmds = vec![ClientCmd::new(with_byte(COM_STMT_PREPARE, b"first"))];
-        let mut behaviours: Vec<Behavior> = vec![Behavior::PrepReply { id: 9, params: param_palette()[0].clone(), cols: Self::shape(0) }];
+        let mut behaviours: Vec<Behavior> = vec![Behavior::PrepReply { id: 9, params: param_palette()[0].clone(), cols: Self::shape_of(0, long_first) }];
         // (reply index, expected list, via PREPARE reply?)
         let mut want: Vec<(usize, Arc<Vec<Column>>, bool)> = Vec::new();
         if long_first {
@@ -756,7 +758,7 @@ impl Family for ManyShapes {
             behaviours.push(Behavior::Prog(Arc::new(vec![WOp::Start(long_cols.clone()), WOp::Finish])));
         }
         for (j, k) in order.iter().enumerate() {
-            let cols = Self::shape(*k);
+            let cols = Self::shape_of(*k, long_first);
             if j % 11 == 10 {
                 cmds.push(ClientCmd::new(with_byte(COM_FIELD_LIST, b"t\0")));
             }
